@@ -205,20 +205,28 @@ def drive(test, seed, max_examples, shrink=True, stateful_steps=None):
 
 
 def library_frame(e):
-    """'file:line' of the innermost traceback frame if it lies in the repository under test, else None"""
+    """'file:line' of the traceback frame that decides whose exception this is: going from the innermost frame outwards, frames
+    of the standard library, of installed packages and of the stand-in packages under harness/shims are passed over (code the
+    library called); the first frame that lies in the repository under test makes it the library's exception (returned), the
+    first frame in the harness proper makes it the harness's own (None)."""
     repo = os.path.realpath(os.environ.get("VERIF_REPO", "/repo")) + os.sep
+    shims = os.path.join(ROOT, "harness", "shims") + os.sep
+    root = os.path.realpath(ROOT) + os.sep
     seen = set()
     while e is not None and id(e) not in seen:
         seen.add(id(e))
+        frames = []
         tb = e.__traceback__
-        last = None
         while tb is not None:
-            last = tb
+            frames.append((os.path.realpath(tb.tb_frame.f_code.co_filename), tb.tb_lineno))
             tb = tb.tb_next
-        if last is not None:
-            fn = os.path.realpath(last.tb_frame.f_code.co_filename)
+        for fn, ln in reversed(frames):
             if fn.startswith(repo):
-                return "%s:%d" % (fn[len(repo):], last.tb_lineno)
+                return "%s:%d" % (fn[len(repo):], ln)
+            if fn.startswith(root) and not fn.startswith(shims):
+                break          # raised by (or on behalf of) harness code
+            if fn.startswith("<"):
+                break          # generated program text run by the harness: the check decides itself what that means
         subs = getattr(e, "exceptions", None)
         e = subs[0] if subs else (e.__cause__ or e.__context__)
     return None
